@@ -38,6 +38,8 @@ func c17Sources(m mapping.IndexMapping, window int) []c17Source {
 		out = append(out, c17Source{fmt.Sprintf("single value %v", v), []Entry{{v, 3}}})
 	}
 	out = append(out, c17Source{"values 1e-12 and -1e9", []Entry{{1e-12, 1}, {-1e9, 2}}})
+	// weights at the far ends: a narrow bin of huge weight, a wide bin of tiny weight
+	out = append(out, c17Source{"huge weight on a narrow bin", []Entry{{1e-9, 1e300}}}, c17Source{"tiny weight on a wide bin", []Entry{{1e10, 1e-300}}})
 	// small multi-bin sources
 	vals := []float64{0.004, 0.05, 0.7, 1, 1.3, 9, 42, 300}
 	for i := range vals {
@@ -348,8 +350,8 @@ func c17Shards(tier string) []mc.Shard {
 func init() {
 	mc.Register(&mc.Property{
 		ID: "C17", Level: "exploration",
-		Rule:        "exhaustive enumeration of conversions: ordered pairs of mappings (3 kinds x accuracies; plus the same base with integer offset shifts -3, +1, +2, which makes bins exactly aligned) x scales {1e-3, 0.1, 1/2, 1, 2, 10, 1e3} and the bin-aligned scales gamma^k (k = -2..2) x source/target store kinds x both sketch variants x sources {a single-bin sketch for every bin of a window around 1, positive and negative; pairs of values with a zero bucket and with negatives; thirty consecutive bins}. Clauses per conversion: the source is observed unchanged; the result carries the requested mapping; zero weight equal; total weight within 1e-12; NO bin of negative weight; single-bin sources send weight only to overlapping target bins; every quantile satisfies the composed bound (1-a2)/(1+a1) <= y/(scale*x) <= (1+a2)/(1-a1) for a source bin x whose cumulative interval is within one unit of weight of the rank; equal mapping and scale 1 give an exact copy; exact statistics are rescaled. evaluations = conversions performed; distinct_nontrivial = distinct (source, scale, store, result shape)",
-		Assumptions: []string{"values stay well inside both mappings' ranges after scaling (sources in [2e-3, 5e2], scales in [1e-3, 1e3])", "relative slack 1e-9 on the composed bound, 1e-12 on interval overlap and on total weight"},
+		Rule:        "exhaustive enumeration of conversions: ordered pairs of mappings (3 kinds x accuracies; plus the same base with integer offset shifts -3, +1, +2, which makes bins exactly aligned) x scales {1e-3, 0.1, 1/2, 1, 2, 10, 1e3} and the bin-aligned scales gamma^k (k = -2..2) x source/target store kinds x both sketch variants x sources {a single-bin sketch for every bin of a window around 1, positive and negative; pairs of values with a zero bucket and with negatives; thirty consecutive bins; single values at 1e-100, 1e-12, 1e9, 1e100; a weight of 1e300 on a narrow bin and of 1e-300 on a wide one}. Clauses per conversion: the source is observed unchanged; the result carries the requested mapping; zero weight equal; total weight within 1e-12; NO bin of negative weight; single-bin sources send weight only to overlapping target bins; every quantile satisfies the composed bound (1-a2)/(1+a1) <= y/(scale*x) <= (1+a2)/(1-a1) for a source bin x whose cumulative interval is within one unit of weight of the rank; equal mapping and scale 1 give an exact copy; exact statistics are rescaled. evaluations = conversions performed; distinct_nontrivial = distinct (source, scale, store, result shape)",
+		Assumptions: []string{"values stay well inside both mappings' ranges after scaling (window sources in [2e-3, 5e2], far sources in [1e-100, 1e100], scales in [1e-3, 1e3])", "relative slack 1e-9 on the composed bound, 1e-12 on interval overlap and on total weight"},
 		Shards:      c17Shards,
 		ShardBudget: budget(240*time.Second, 14*time.Minute),
 	})
